@@ -22,6 +22,9 @@ type Dict struct {
 	Words   []string // single tokens
 	Phrases []string // literals (or parts of literals) holding at least two words
 	Hot     []string // phrases and words from the packages that analyse queries (nlp, database, cli, validation)
+	// literals of the query-analysis package alone (stop words, synonyms, action / target / intent tables, context clues)
+	NLPWords   []string
+	NLPPhrases []string
 }
 
 var dictCache = map[string]*Dict{}
@@ -33,6 +36,7 @@ func SourceDict(repo string) *Dict {
 		return d
 	}
 	words, phrases, hot := map[string]bool{}, map[string]bool{}, map[string]bool{}
+	nlpW, nlpP := map[string]bool{}, map[string]bool{}
 	fset := token.NewFileSet()
 	for _, root := range []string{"internal", "cmd"} {
 		filepath.Walk(filepath.Join(repo, root), func(p string, info os.FileInfo, err error) error {
@@ -43,6 +47,7 @@ func SourceDict(repo string) *Dict {
 			if err != nil {
 				return nil
 			}
+			isNLP := strings.Contains(p, "/nlp/")
 			isHot := false
 			for _, h := range []string{"/nlp/", "/database/", "/cli/", "/validation/", "/context/"} {
 				if strings.Contains(p, h) {
@@ -70,12 +75,18 @@ func SourceDict(repo string) *Dict {
 					if isHot {
 						hot[fs[0]] = true
 					}
+					if isNLP && len(fs[0]) <= 24 {
+						nlpW[fs[0]] = true
+					}
 					return true
 				}
 				if len(fs) <= 8 {
 					phrases[strings.Join(fs, " ")] = true
 					if isHot {
 						hot[strings.Join(fs, " ")] = true
+					}
+					if isNLP && len(fs) <= 4 {
+						nlpP[strings.Join(fs, " ")] = true
 					}
 				}
 				for _, w := range fs {
@@ -88,7 +99,7 @@ func SourceDict(repo string) *Dict {
 			return nil
 		})
 	}
-	d := &Dict{Words: keys(words), Phrases: keys(phrases), Hot: keys(hot)}
+	d := &Dict{Words: keys(words), Phrases: keys(phrases), Hot: keys(hot), NLPWords: keys(nlpW), NLPPhrases: keys(nlpP)}
 	dictCache[repo] = d
 	return d
 }
@@ -154,4 +165,24 @@ func (d *Dict) DictQuery(r *rand.Rand) string {
 	lit := pool[r.Intn(len(pool))]
 	v := d.Variants(r, lit, 2)
 	return v[r.Intn(len(v))]
+}
+
+// NLPCombos walks, for shard `shard` of `nshards`, the queries "<word><ending> <filler> <phrase>" over every word and phrase
+// the query-analysis package names, with the endings that turn a word into one that merely contains it ("show" -> "showing").
+func (d *Dict) NLPCombos(shard, nshards int, filler string, f func(q string)) int {
+	n := 0
+	k := 0
+	for _, p := range d.NLPPhrases {
+		for _, w := range d.NLPWords {
+			for _, e := range []string{"", "ing", "s", "ed"} {
+				k++
+				if k%nshards != shard {
+					continue
+				}
+				f(w + e + " " + filler + " " + p)
+				n++
+			}
+		}
+	}
+	return n
 }
